@@ -42,28 +42,69 @@ def race_run(seed, millis):
     return res
 
 
+def _fail(vf, pid, name, what, cmd, output):
+    rp = os.path.join(vf.VERIF, "replays", "%s_%s.json" % (pid, name))
+    os.makedirs(os.path.dirname(rp), exist_ok=True)
+    json.dump({"what": what, "replay_cmd": cmd, "output": output}, open(rp, "w"), indent=1)
+    print("VIOLATION property=%s replay=%s" % (pid, rp), flush=True)
+
+
+def readers_run(seed, rounds, binary):
+    """Concurrent-readers scenario (cold Flatten caches, parallel Pending() callers,
+    every result compared with the sequential view)."""
+    import vf
+    if not os.path.exists(binary):
+        return {"ran": False}
+    rc, log = vf.sh([binary, "readers", "-seed", str(seed), "-n", str(rounds)], env=vf.GOENV, timeout=600)
+    res = {"ran": True, "exit": rc, "races": log.count("WARNING: DATA RACE"), "tail": log[-1500:]}
+    for line in log.splitlines():
+        if line.startswith("{"):
+            try:
+                res["workload"] = json.loads(line)
+            except Exception:
+                pass
+    return res
+
+
 def check(pid, tier, seed):
-    """standard_check plus, in the thorough tier, the -race run of the
-    concurrent workload (a detected race or a final-state oracle hit fails the check)."""
+    """standard_check plus (every tier) the concurrent-readers scenario on the
+    normal binary and (thorough tier) the -race runs of that scenario and of the
+    mixed concurrent workload.  A detected race, a reader result that differs from
+    the sequential view or a final-state oracle hit fails the check."""
     import vf
     rc = vf.standard_check(pid, tier, seed)
+    evp = os.path.join(vf.VERIF, "evidence", pid + ".json")
+    try:
+        ev = json.load(open(evp))
+    except Exception as e:   # evidence file missing: standard_check already reported why
+        print("concurrent runs not recorded:", e)
+        return rc
+    extra_violations = 0
+    binary = os.path.join(vf.BUILD, "c20")
+    rd = readers_run(seed, 150 if tier == "quick" else 600, binary)
+    ev["coverage"]["concurrent_readers_run"] = rd
+    if rd.get("ran") and rd.get("exit") != 0:
+        _fail(vf, pid, "readers", "Pending() under concurrent readers differs from the sequential view (or the run crashed)",
+              "build/c20 readers -seed %d -n 150" % seed, rd)
+        extra_violations += 1
     if tier == "thorough":
         rr = race_run(seed, 8000)
-        evp = os.path.join(vf.VERIF, "evidence", pid + ".json")
-        try:
-            ev = json.load(open(evp))
-            ev["coverage"]["race_run"] = rr
-            if rr.get("races", 0) > 0 or (rr.get("built") and rr.get("exit") not in (0,)):
-                d = os.path.join(vf.VERIF, "replays")
-                rp = os.path.join(d, "C20_race.json")
-                json.dump({"what": "race detector or final-state oracle fired in the concurrent workload",
-                           "replay_cmd": "build/c20_race stress -seed %d -n 8000" % seed, "output": rr}, open(rp, "w"), indent=1)
-                print("VIOLATION property=C20 replay=%s" % rp, flush=True)
-                ev["violations"] = ev.get("violations", 0) + 1
-                rc = 1
-            json.dump(ev, open(evp, "w"), indent=1)
-        except Exception as e:   # evidence file missing: standard_check already reported why
-            print("race run not recorded:", e)
+        ev["coverage"]["race_run"] = rr
+        if rr.get("races", 0) > 0 or (rr.get("built") and rr.get("exit") not in (0,)):
+            _fail(vf, pid, "race", "race detector or final-state oracle fired in the concurrent workload",
+                  "build/c20_race stress -seed %d -n 8000" % seed, rr)
+            extra_violations += 1
+        if rr.get("built"):
+            rdr = readers_run(seed, 300, os.path.join(vf.BUILD, "c20_race"))
+            ev["coverage"]["concurrent_readers_race_run"] = rdr
+            if rdr.get("races", 0) > 0 or rdr.get("exit") != 0:
+                _fail(vf, pid, "readers_race", "race detector or reader oracle fired in the concurrent-readers scenario",
+                      "build/c20_race readers -seed %d -n 300" % seed, rdr)
+                extra_violations += 1
+    if extra_violations:
+        ev["violations"] = ev.get("violations", 0) + extra_violations
+        rc = 1
+    json.dump(ev, open(evp, "w"), indent=1)
     return rc
 
 
@@ -97,7 +138,7 @@ SPEC = {
     "obligations": [
         "C20_views_partition", "C20_never_pending_and_queued", "C20_pooled_valid",
         "C20_pending_gapfree_refuted", "C20_pending_gapfree_holds_outside", "C20_state_clauses_after_repair",
-        "C20_pending_api_exact", "C20_lock_discipline", "C20_evict_branch_as_modelled",
+        "C20_pending_api_exact", "C20_lock_discipline", "C20_read_regions_do_not_write", "C20_evict_branch_as_modelled",
         "C20_nonvacuous_partition", "C20_nonvacuous_repair", "C20_nonvacuous_holds_outside",
     ],
     "cases": {"quick": 300, "thorough": 4500},
@@ -134,6 +175,8 @@ SPEC = {
     "partial": [
         "limits (GlobalSlots/AccountSlots/GlobalQueue/AccountQueue after a reorg run): no Coq theorem, only the harness oracle and the model comparison",
         "the model never reaching a Go panic (empty list in truncatePending / the tail of runReorg): not proved; no panic in any harness run",
-        "data races: Go memory model is outside Coq; lock inventory (C20_lock_discipline) + -race run of a concurrent workload (thorough tier) are supporting evidence",
+        "data races: Go memory model is outside Coq; lock inventory (C20_lock_discipline: shared fields only inside pool.mu; "
+        "C20_read_regions_do_not_write: nothing reachable from an RLock-only region writes shared state, lazy caches included), "
+        "the concurrent-readers scenario (every tier) and the -race runs (thorough tier) are supporting evidence",
     ],
 }
